@@ -337,6 +337,11 @@ def population(m, before_ids):
         mc = xtuml.get_metaclass(inst)
         row = tuple((n, getattr(inst, n)) for n, t in mc.attributes if t.upper() != 'UNIQUE_ID'
                     and not (mc.kind == 'ACT_SMT' and n == 'Label'))      # ACT_SMT.Label = the recorded source text
+        # data types are relations, not attributes: V_VAL -R820-> S_DT, V_VAR -R848-> S_DT
+        if mc.kind == 'V_VAL':
+            row += (('R820', getattr(one(inst).S_DT[820](), 'Name', None)),)
+        elif mc.kind == 'V_VAR':
+            row += (('R848', getattr(one(inst).S_DT[848](), 'Name', None)),)
         out.setdefault(mc.kind, []).append(row)
     return {k: sorted(v, key=repr) for k, v in out.items()}
 
